@@ -1049,6 +1049,144 @@ def _dataset_cases(ctx, reqs, pend):
                     ctx.fail(dict(case, what='frame -> total pixel matrix', frame=f + 1), {'got': got.tolist(), 'want': want.tolist()}, site='frame_vs_total')
 
 
+# ------------------------------------------------------------------ 5b. histories: transformers depend only on the CURRENT attributes
+def _history_cases(ctx):
+    """No hidden state: build the transformers of an image, change its geometry (in place, on a deepcopy keeping the SOP
+    Instance UID, or in a second synthetic dataset reusing the UID), build them again in the same process - after every
+    step every for_image-style constructor must agree with the explicit attributes of the dataset AS IT IS NOW, and frame
+    (C, R) pixel (c, r) must be pixel (C-1+c, R-1+r) of the total pixel matrix."""
+    import copy
+    from highdicom import spatial as sp
+    from gen import sources
+    n = ctx.n(16, 200)
+    tcls = [sp.PixelToReferenceTransformer, sp.ReferenceToPixelTransformer, sp.ImageToReferenceTransformer,
+            sp.ReferenceToImageTransformer]
+
+    def explicit(cls, pos, ori, ps, sbs):
+        if cls in (sp.ReferenceToPixelTransformer, sp.ReferenceToImageTransformer):
+            return cls(pos, ori, ps, spacing_between_slices=1.0 if sbs is None else sbs)
+        return cls(pos, ori, ps)
+
+    def verify(case, kind, ds, pl, geo):
+        row, col = np.array(pl['ori'][:3]), np.array(pl['ori'][3:])
+        lim = 1e-9 * (1 + max(abs(x) for x in pl['pos']))
+        if kind in ('full', 'sparse'):
+            trows, tcols, tr_, tc_ = geo
+            origin = [pl['pos'][0], pl['pos'][1], 0.0]
+            st, ttot = _call(sp.PixelToReferenceTransformer.for_image, ds, for_total_pixel_matrix=True)
+            if st != 'ok' or not np.array_equal(ttot.affine, sp.PixelToReferenceTransformer(origin, pl['ori'], pl['ps']).affine):
+                ctx.fail(dict(case, what='total pixel matrix'), f'{st}: differs from the current attributes', site='history')
+                return
+            ntw = -(-tcols // tc_)
+            nfr = int(ds.NumberOfFrames)
+            for f in range(nfr):
+                a, b = divmod(f, ntw)
+                C, Rr = b * tc_ + 1, a * tr_ + 1
+                fpos = np.array(origin) + (C - 1) * pl['ps'][1] * row + (Rr - 1) * pl['ps'][0] * col
+                for cls in tcls:
+                    st, t = _call(cls.for_image, ds, frame_number=f + 1)
+                    ctx.case(fn='history', kind=kind, outcome=st if st == 'ok' else t)
+                    want = explicit(cls, [float(x) for x in fpos], pl['ori'], pl['ps'], None).affine
+                    if st != 'ok' or np.abs(t.affine - want).max() > lim * 16:
+                        ctx.fail(dict(case, cls=cls.__name__, frame=f + 1, offset=[C, Rr]),
+                                 {'what': 'frame transformer does not follow the current attributes of the dataset',
+                                  'got': t.affine.tolist() if st == 'ok' else t, 'want': want.tolist()}, site='history')
+                        return
+                st, tf = _call(sp.PixelToReferenceTransformer.for_image, ds, frame_number=f + 1)
+                cr = np.array([[0, 0], [tc_ - 1, tr_ - 1]])
+                if st != 'ok' or np.abs(tf(cr) - ttot(cr + np.array([C - 1, Rr - 1]))).max() > lim:
+                    ctx.fail(dict(case, frame=f + 1, offset=[C, Rr]),
+                             {'what': 'pixel (c, r) of the frame is not pixel (C-1+c, R-1+r) of the total pixel matrix'}, site='frame_vs_total')
+                    return
+                st, t2 = _call(sp.PixelToPixelTransformer.for_images, ds, ds, frame_number_from=f + 1, for_total_pixel_matrix_to=True,
+                               round_output=False)
+                if st != 'ok' or np.abs(t2(np.array([[0, 0]])) - np.array([[C - 1, Rr - 1]], dtype=float)).max() > 1e-6:
+                    ctx.fail(dict(case, frame=f + 1, offset=[C, Rr]), {'what': 'frame -> total pixel matrix mapping', 'status': st}, site='frame_vs_total')
+                    return
+        else:
+            nfr, sl = geo
+            nrm = np.cross(row, col)
+            for f in range(nfr):
+                pos = [float(x) for x in np.array(pl['pos']) + f * sl * nrm]
+                d, fn = (ds[f], None) if kind == 'single' else (ds, f + 1)
+                for cls in tcls:
+                    st, t = _call(cls.for_image, d, frame_number=fn)
+                    ctx.case(fn='history', kind=kind, outcome=st if st == 'ok' else t)
+                    want = explicit(cls, pos, pl['ori'], pl['ps'], None if kind == 'single' else abs(sl)).affine
+                    if st != 'ok' or np.abs(t.affine - want).max() > lim * 16:
+                        ctx.fail(dict(case, cls=cls.__name__, frame=f + 1),
+                                 {'what': 'transformer does not follow the current attributes of the dataset',
+                                  'got': t.affine.tolist() if st == 'ok' else t, 'want': want.tolist()}, site='history')
+                        return
+
+    def build(kind, pl, geo, uids):
+        if kind in ('full', 'sparse'):
+            trows, tcols, tr_, tc_ = geo
+            ds, _ = sources.slide_image(trows, tcols, tr_, tc_, tiled_full=(kind == 'full'), origin=(pl['pos'][0], pl['pos'][1], 0.0),
+                                        pixel_spacing=pl['ps'], orientation=pl['ori'])
+            if uids:
+                ds.SOPInstanceUID = uids[0]
+                ds.file_meta.MediaStorageSOPInstanceUID = uids[0]
+            return ds, [str(ds.SOPInstanceUID)]
+        nfr, sl = geo
+        if kind == 'single':
+            dss = sources.ct_series(nfr, 2, 3, orientation=pl['ori'], origin=pl['pos'], pixel_spacing=pl['ps'], slice_spacing=sl)
+            for d, u in zip(dss, uids):
+                d.SOPInstanceUID = u
+            return dss, [str(d.SOPInstanceUID) for d in dss]
+        ds = sources.enhanced_multiframe(nfr, 2, 3, orientation=pl['ori'], origin=pl['pos'], pixel_spacing=pl['ps'], slice_spacing=sl)
+        if uids:
+            ds.SOPInstanceUID = uids[0]
+        return ds, [str(ds.SOPInstanceUID)]
+
+    for i in range(n):
+        r = ctx.rng('hist', i)
+        kind = ['full', 'full', 'sparse', 'perframe', 'single', 'full'][i % 6]
+        pl = _plane(r)
+        if kind in ('full', 'sparse'):
+            geo = (r.randint(2, 7), r.randint(2, 7), r.randint(1, 3), r.randint(1, 3))
+        else:
+            geo = (r.randint(1, 3), _spacing(r))
+        ds, uids = build(kind, pl, geo, [])
+        case = {'fn': 'history', 'kind': kind, 'i': i, 'steps': []}
+        verify(dict(case, step=0), kind, ds, pl, geo)
+        for step in range(1, 3):
+            pl2 = _plane(r)
+            mode = r.choice(['inplace', 'deepcopy', 'regenerate']) if kind == 'full' else 'regenerate'
+            what = r.choice(['origin', 'orientation', 'spacing', 'tiles', 'all'])
+            if mode == 'regenerate':
+                if what == 'origin':
+                    pl2 = dict(pl, pos=pl2['pos'])
+                elif what == 'orientation':
+                    pl2 = dict(pl, ori=pl2['ori'], cls=pl2['cls'])
+                elif what == 'spacing':
+                    pl2 = dict(pl, ps=pl2['ps'])
+                geo2 = geo
+                if kind in ('full', 'sparse') and what in ('tiles', 'all'):
+                    geo2 = (geo[0], geo[1], r.randint(1, 3), r.randint(1, 3))
+                    if what == 'tiles':
+                        pl2 = pl
+                ds, _ = build(kind, pl2, geo2, uids)
+                pl, geo = pl2, geo2
+            else:
+                # TILED_FULL: the frame positions are implied by the attributes that are edited here
+                tgt = ds if mode == 'inplace' else copy.deepcopy(ds)
+                if what in ('origin', 'all', 'tiles'):
+                    tgt.TotalPixelMatrixOriginSequence[0].XOffsetInSlideCoordinateSystem = pl2['pos'][0]
+                    tgt.TotalPixelMatrixOriginSequence[0].YOffsetInSlideCoordinateSystem = pl2['pos'][1]
+                    pl = dict(pl, pos=pl2['pos'])
+                if what in ('orientation', 'all'):
+                    tgt.ImageOrientationSlide = pl2['ori']
+                    pl = dict(pl, ori=pl2['ori'], cls=pl2['cls'])
+                if what in ('spacing', 'all'):
+                    tgt.SharedFunctionalGroupsSequence[0].PixelMeasuresSequence[0].PixelSpacing = pl2['ps']
+                    pl = dict(pl, ps=pl2['ps'])
+                ds = tgt
+            case['steps'].append([mode, what])
+            ctx.case(fn='history', kind=kind, edit=what, mode=mode, nontrivial_key=('hist', kind, mode, what, step))
+            verify(dict(case, step=step), kind, ds, pl, geo)
+
+
 # ------------------------------------------------------------------ run
 def _compare(ctx, reqs, pend):
     answers = ctx.model(reqs)
@@ -1080,6 +1218,7 @@ def run(ctx):
     _components_cases(ctx, reqs, pend)
     _volume_attr_cases(ctx)
     _dataset_cases(ctx, reqs, pend)
+    _history_cases(ctx)
     _compare(ctx, reqs, pend)
 
 
@@ -1092,5 +1231,6 @@ def replay(ctx, case):
     for s in streams:
         s(sub, [], [])
     _volume_attr_cases(sub)
+    _history_cases(sub)
     hits = [f for f in sub.failures if isinstance(f['case'], dict) and f['case'].get('fn', '') == fn]
     return (hits or sub.failures)[:3] or None
